@@ -1,6 +1,8 @@
 import Uom.Proofs.Exact
 import Mathlib.Algebra.Order.Floor.Ring
 import Mathlib.Data.Rat.Floor
+import Uom.Proofs.BodyEq.Round
+import Uom.Proofs.FloatOps
 /-!
 # C16 — rounding to a unit rounds the value as expressed in that unit
 
@@ -69,5 +71,83 @@ example : roundInUnit ratS (fun x => (⌊x⌋ : Rat)) (3048 / 10000) 0 0 1 (3.7 
   unfold roundInUnit
   simp only [toBase_rat, fromBase_rat]
   norm_num
+
+/-! ### floats: proved bounds — the stored result is the construction (within `4u`) of the *mathematical*
+rounding of the value the implementation reads in the unit (the oracle `oracleStdRounding`, as a theorem) -/
+
+/-- the soft-float `floor`/`ceil`/`round`/`trunc` are the mathematical functions, exactly -/
+theorem float_floor_exact (f : Fmt) (hf : f.WF) (x : Fl) (hc : Fl.Canonical f x) (hx : x.isFinite = true) :
+    (Fl.floor f x).toRat = ((x.toRat.floor : Int) : Rat) := (Proofs.floor_toRat hf hc hx).1
+theorem float_round_exact (f : Fmt) (hf : f.WF) (x : Fl) (hc : Fl.Canonical f x) (hx : x.isFinite = true) :
+    (Fl.round f x).toRat = ((Proofs.ratRoundQ x.toRat : Int) : Rat) := (Proofs.round_toRat hf hc hx).1
+
+theorem floor_float (f : Fmt) (hf : f.WF) (h4 : 4 ≤ f.p) (coef cA cS fac v : Fl)
+    (hg : Fl.isFinite (fromBase (flS f) coef cS fac v) = true)
+    (H : Proofs.ToBaseOk f coef cA fac (Fl.floor f (fromBase (flS f) coef cS fac v))) :
+    |Fl.toRat (roundInUnit (flS f) (Fl.floor f) coef cA cS fac v) -
+        (((Fl.toRat (fromBase (flS f) coef cS fac v)).floor : Int) + cA.toRat) * coef.toRat / fac.toRat| ≤
+      4 * Proofs.uro f *
+        |(((Fl.toRat (fromBase (flS f) coef cS fac v)).floor : Int) + cA.toRat) * coef.toRat / fac.toRat| :=
+  Proofs.floor_in_unit_abs_le hf h4 hg H
+
+theorem ceil_float (f : Fmt) (hf : f.WF) (h4 : 4 ≤ f.p) (coef cA cS fac v : Fl)
+    (hg : Fl.isFinite (fromBase (flS f) coef cS fac v) = true)
+    (H : Proofs.ToBaseOk f coef cA fac (Fl.ceil f (fromBase (flS f) coef cS fac v))) :
+    |Fl.toRat (roundInUnit (flS f) (Fl.ceil f) coef cA cS fac v) -
+        (((-((-(Fl.toRat (fromBase (flS f) coef cS fac v))).floor) : Int) : Rat) + cA.toRat)
+          * coef.toRat / fac.toRat| ≤
+      4 * Proofs.uro f *
+        |(((-((-(Fl.toRat (fromBase (flS f) coef cS fac v))).floor) : Int) : Rat) + cA.toRat)
+          * coef.toRat / fac.toRat| :=
+  Proofs.ceil_in_unit_abs_le hf h4 hg H
+
+theorem round_float (f : Fmt) (hf : f.WF) (h4 : 4 ≤ f.p) (coef cA cS fac v : Fl)
+    (hg : Fl.isFinite (fromBase (flS f) coef cS fac v) = true)
+    (H : Proofs.ToBaseOk f coef cA fac (Fl.round f (fromBase (flS f) coef cS fac v))) :
+    |Fl.toRat (roundInUnit (flS f) (Fl.round f) coef cA cS fac v) -
+        (((Proofs.ratRoundQ (Fl.toRat (fromBase (flS f) coef cS fac v)) : Int) : Rat) + cA.toRat)
+          * coef.toRat / fac.toRat| ≤
+      4 * Proofs.uro f *
+        |(((Proofs.ratRoundQ (Fl.toRat (fromBase (flS f) coef cS fac v)) : Int) : Rat) + cA.toRat)
+          * coef.toRat / fac.toRat| :=
+  Proofs.round_in_unit_abs_le hf h4 hg H
+
+theorem trunc_float (f : Fmt) (hf : f.WF) (h4 : 4 ≤ f.p) (coef cA cS fac v : Fl)
+    (hg : Fl.isFinite (fromBase (flS f) coef cS fac v) = true)
+    (H : Proofs.ToBaseOk f coef cA fac (Fl.trunc f (fromBase (flS f) coef cS fac v))) :
+    |Fl.toRat (roundInUnit (flS f) (Fl.trunc f) coef cA cS fac v) -
+        (((Proofs.ratTruncQ (Fl.toRat (fromBase (flS f) coef cS fac v)) : Int) : Rat) + cA.toRat)
+          * coef.toRat / fac.toRat| ≤
+      4 * Proofs.uro f *
+        |(((Proofs.ratTruncQ (Fl.toRat (fromBase (flS f) coef cS fac v)) : Int) : Rat) + cA.toRat)
+          * coef.toRat / fac.toRat| :=
+  Proofs.trunc_in_unit_abs_le hf h4 hg H
+
+/-! ### tie to the source: the function bodies regenerated from /repo/src on this run
+
+`Gen.Body.*` below is what the translator read from the Rust source just now; `Body.run` evaluates it
+over any storage type.  These theorems state the property's code path *for the regenerated bodies*:
+they fail to check as soon as the source computes something else. -/
+section SourceTie
+open Uom.Body Uom.Gen.Body
+
+/-- the five rounding methods are `roundInUnit` with the storage type's same-named function -/
+theorem src_floor (N : NumTy) (env : Env N) (op : N.S.V → N.S.V) (hop : ∀ x, env.fwd m_floor [argV x] = argV (op x)) (a : N.S.V) :
+    run N env quantity_inherent_quantity_floor [argQ a]
+      = argQ (roundInUnit N.S op env.nCoef env.nConsA env.nConsS (env.bf .U .Dimension) a) := BodyEq.floor_eq N env op hop a
+theorem src_ceil (N : NumTy) (env : Env N) (op : N.S.V → N.S.V) (hop : ∀ x, env.fwd m_ceil [argV x] = argV (op x)) (a : N.S.V) :
+    run N env quantity_inherent_quantity_ceil [argQ a]
+      = argQ (roundInUnit N.S op env.nCoef env.nConsA env.nConsS (env.bf .U .Dimension) a) := BodyEq.ceil_eq N env op hop a
+theorem src_round (N : NumTy) (env : Env N) (op : N.S.V → N.S.V) (hop : ∀ x, env.fwd m_round [argV x] = argV (op x)) (a : N.S.V) :
+    run N env quantity_inherent_quantity_round [argQ a]
+      = argQ (roundInUnit N.S op env.nCoef env.nConsA env.nConsS (env.bf .U .Dimension) a) := BodyEq.round_eq N env op hop a
+theorem src_trunc (N : NumTy) (env : Env N) (op : N.S.V → N.S.V) (hop : ∀ x, env.fwd m_trunc [argV x] = argV (op x)) (a : N.S.V) :
+    run N env quantity_inherent_quantity_trunc [argQ a]
+      = argQ (roundInUnit N.S op env.nCoef env.nConsA env.nConsS (env.bf .U .Dimension) a) := BodyEq.trunc_eq N env op hop a
+theorem src_fract (N : NumTy) (env : Env N) (op : N.S.V → N.S.V) (hop : ∀ x, env.fwd m_fract [argV x] = argV (op x)) (a : N.S.V) :
+    run N env quantity_inherent_quantity_fract [argQ a]
+      = argQ (roundInUnit N.S op env.nCoef env.nConsA env.nConsS (env.bf .U .Dimension) a) := BodyEq.fract_eq N env op hop a
+
+end SourceTie
 
 end Uom.C16
